@@ -1241,23 +1241,10 @@ fn fbig_panic(out: &mut Out, ctx: &Ctx, site: &FbigSite, m: &str, sig: &BigInt, 
     let detail = || format!("{} panicked: {nm} [base {}, x = {}]", site.what, site.base, site.xs);
     let wide_assert = nm.contains("assertion failed: self.significand.bit_len() <= #") && nm.contains("float/src/convert.rs");
     let e = site.exp;
-    if site.base != 2 && pow2_base(site.base) {
-        // C06/convert-base-pow-shortcut-unrounded: "B is a power of NewB" returns
-        // Exact(Repr::new(significand, exp·n)) without rounding to the context precision
-        if wide_assert && sig.magnitude().bits() as i64 > p {
-            return ctx.known_or_fail(out, "C06/convert-base-pow-shortcut-unrounded", detail);
-        }
-    } else if !pow2_base(site.base) && (0..=38).contains(&e) {
-        // C06/convert-base-small-exp-unrounded: 0 <= exponent <= 38 evaluates significand·B^exponent
-        // and returns it as Exact without rounding to the context precision
-        let mut n = sig.magnitude() * bpow(site.base, e as u64);
-        if !n.is_zero() {
-            n >>= n.trailing_zeros().unwrap() as usize;
-        }
-        if wide_assert && n.bits() as i64 > p {
-            return ctx.known_or_fail(out, "C06/convert-base-small-exp-unrounded", detail);
-        }
-    } else if !pow2_base(site.base) && (-38..0).contains(&e) {
+    // (two more panics of this family, "B is a power of NewB" and 0 <= exponent <= 38 returning
+    // unrounded significands, were fixed in /repo by 30a31de and 975ab67; their witnesses are kept
+    // as regression cases under /verif/regress/C06)
+    if !pow2_base(site.base) && (-38..0).contains(&e) {
         // -38 <= exponent < 0 calls repr_div(significand, B^-exponent) in base 2 at precision p
         let odd = |n: &BigUint| if n.is_zero() { n.clone() } else { n >> n.trailing_zeros().unwrap() as usize };
         let n = odd(sig.magnitude());
